@@ -11,14 +11,15 @@ from runner import Case
 from props import _store_util as U
 
 THEOREMS = ["C02.setParent_rej_id", "C02.setChildren_rej_id", "C02.setChildren_rej_id_unchecked", "C02.step_rej_id",
-            "C02.prefix_rollback_not_identity"]
+            "C02.prefix_rollback_not_identity",
+            "BinStore.setParent_rej_id", "BinStore.setChildren_rej_id", "BinStore.setChildren_rej_id_any", "BinStore.setLeft_rej_id", "BinStore.setRight_rej_id", "BinStore.step_rej_id", "BinStore.step_rej_id_any", "DagStore.setParents_rej_id", "DagStore.setChildren_rej_id", "DagStore.step_rej_id"]
 PLUGINS = {}      # cls value -> dict(gen=, impl=, oracle=, shrink=, nontrivial=)
 
 
-def register(cls_values, gen, impl, oracle, shrink=None, nontrivial=None):
+def register(cls_values, gen, impl, oracle, shrink=None, nontrivial=None, compare=None):
     """plug a node class in: `gen(rng, tier) -> [Case]` (every case's data["cls"] in cls_values),
     `impl(case) -> str`, `oracle(case) -> [str]`, optional `shrink(case)`, `nontrivial(case)`"""
-    p = dict(gen=gen, impl=impl, oracle=oracle, shrink=shrink, nontrivial=nontrivial)
+    p = dict(gen=gen, impl=impl, oracle=oracle, shrink=shrink, nontrivial=nontrivial, compare=compare)
     for c in cls_values:
         PLUGINS[c] = p
 
@@ -161,7 +162,18 @@ def nontrivial(case):
     return f(case) if f else True
 
 
+def compare(a, b, case=None):
+    f = _plugin(case)["compare"] if case is not None else None
+    return f(a, b, case) if f else a == b
+
+
+# BinaryNode and DAGNode plug-ins (props/_plug.py, on top of props/C11.py and props/C10.py)
+from props import _plug  # noqa: E402
+register(*_plug.c02_binary())
+register(*_plug.c02_dag())
+
+
 NOT_READY = False
-LEVEL_TEXT = 'Proof (BaseNode/Node part; BinaryNode and DAGNode are plugged in as further classes). On the statement-level model of the parent and children setters the EXECUTED roll-back code is proved to restore the snapshot: C02.setParent_rej_id, setChildren_rej_id (checks on) / setChildren_rej_id_unchecked (checks off, guard-accepted arguments), step_rej_id (every API call except the documented loop extend): whenever the outcome is a rejection - wrong type, self/ancestor loop, repeated child, duplicate sibling name, user hook raising before or after the assignment - the resulting store EQUALS the store before the call (every parent, every child list in order, names, separators), for every well-formed store. Key lemma reinsert_one/restore_fold: re-inserting the stolen children in ascending original index (the D1 repair) rebuilds each donor list; prefix_rollback_not_identity is the kernel-checked counter-example for the pre-fix dict-order roll-back (p.children=[x,y,z], failing q.children=[y,x] gives [x,z,y]). Tied to /repo on every run by differential testing of histories with ~50 % failing calls on hook-raising user subclasses; the oracle compares full snapshots before/after every raising call.'
+LEVEL_TEXT = 'Proof (BaseNode/Node, BinaryNode and DAGNode stores). On the statement-level model of the parent and children setters the EXECUTED roll-back code is proved to restore the snapshot: C02.setParent_rej_id, setChildren_rej_id (checks on) / setChildren_rej_id_unchecked (checks off, guard-accepted arguments), step_rej_id (every API call except the documented loop extend): whenever the outcome is a rejection - wrong type, self/ancestor loop, repeated child, duplicate sibling name, user hook raising before or after the assignment - the resulting store EQUALS the store before the call (every parent, every child list in order, names, separators), for every well-formed store. Key lemma reinsert_one/restore_fold: re-inserting the stolen children in ascending original index (the D1 repair) rebuilds each donor list; prefix_rollback_not_identity is the kernel-checked counter-example for the pre-fix dict-order roll-back (p.children=[x,y,z], failing q.children=[y,x] gives [x,z,y]). Tied to /repo on every run by differential testing of histories with ~50 % failing calls on hook-raising user subclasses; the oracle compares full snapshots before/after every raising call.'
 LEVEL_NOTE = 'Exhaustive tie: every forest reachable on <=3 / <=4 nodes x every parent/children assignment x every argument tuple x every hook fault; corpus: D1 witness in every order, donors with >= 4 children, two orphans, children already under the target, donor itself stolen. extend() is a documented loop: only its steps are atomic. Hooks raise or return, they do not mutate links.'
 TECHNIQUE = 'Lean 4 proof that roll-back ∘ body = identity on well-formed stores (fold invariants over the restoring loop) + correspondence check + before/after snapshot oracle'
